@@ -336,14 +336,15 @@ def oracle(desc, got):
         l, r = desc['l'], desc['r']
         exp = [l] if r is None else ([l + i for i in range(r - l + 1)] if l <= r else [l - i for i in range(l - r + 1)])
         if got != exp:
-            return f'[{l}:{r}] expands to {got[:6]}.. ({len(got)} indices), declared range is {exp[:6]}.. ({len(exp)})'
+            return (f'[{l}:{r}] expands to {got[:6]}.. ({len(got)} indices), declared range is {exp[:6]}.. ({len(exp)})' if isinstance(got, list)
+                    else f'[{l}:{r}] gives {got!r}, declared range is {exp[:6]}.. ({len(exp)} indices)')
     if k in ('sigsel-range', 'names') and desc.get('l') is not None:
         l, r, name = desc['l'], desc['r'], desc['name']
         idx = [l] if r is None else ([l + i for i in range(r - l + 1)] if l <= r else [l - i for i in range(l - r + 1)])
         exp = [f'{name}[{i}]' for i in idx]
         g = [got] if isinstance(got, str) else got
         if g != exp:
-            return f'{name}[{l}:{r}] yields {g[:5]}.. expected {exp[:5]}..'
+            return f'{name}[{l}:{r}] yields {g[:5] if isinstance(g, list) else g!r}.. expected {exp[:5]}..'
     if k == 'sigsel-const' and 'raises' not in desc:
         import re
         m = re.fullmatch(r"0*(\d+)'([bdhBDH])([0-9a-fA-F]+)", desc['token'])
